@@ -3,10 +3,14 @@ package checks
 import (
 	"bytes"
 	"encoding/base64"
+	"encoding/json"
 	"fmt"
 	"hash/fnv"
 	"io"
 	"math"
+	"os"
+	"os/exec"
+	"path/filepath"
 	"strconv"
 	"strings"
 	"sync"
@@ -540,6 +544,10 @@ func c11(tier string) int {
 	run.Set("roundtrip_bodies", evals)
 	run.Sample(map[string]any{"round_trip_body": string(c10Body(1<<63, proofs[2], []byte("x\n\n\xff")))})
 
+	// The repository's own WRITER of such bodies (cmd/feedbastion's
+	// bastionClient.Update, run in the real binary): what it writes for (proof,
+	// checkpoint) must read back as those hashes and those checkpoint bytes.
+	evals += c11Writer(run, proofs, [][]byte{real4, realExt, real6k, []byte("%"), []byte("%%\n"), []byte("a%2Fb\n7\n"), []byte("50% done\n"), []byte("x%"), []byte("%!(NOVERB)%s%d%v\n"), []byte("\xff%s\n\n\xfe"), []byte("x\n\n— n AAAA\n")})
 	// Proof.Marshal -> Unmarshal for every list, including the empty one.
 	var pm int64
 	// Each list is read back into a fresh receiver and into ONE receiver that
@@ -665,4 +673,66 @@ func editNeighbourhood(s []byte, inserts []string) [][]byte {
 		}
 	}
 	return out
+}
+
+// c11Writer hands every case to the real cmd/feedbastion binary (built next to
+// the harness; an added init() calls the repository's bastionClient.Update
+// with a capturing transport) and parses what it wrote with the real parseBody.
+// The tool always announces old size 0 (it cannot know the witness's state),
+// so the old size is not compared.
+func c11Writer(run *ev.Run, proofs [][][]byte, cps [][]byte) int64 {
+	self, _ := os.Executable()
+	bin := filepath.Join(filepath.Dir(self), "feedbastion")
+	if _, err := os.Stat(bin); err != nil {
+		ev.Internal("C11 writer leg: %s is missing (scripts/build.sh builds it)", bin)
+	}
+	type wcase struct {
+		p  [][]byte
+		cp []byte
+	}
+	var cases []wcase
+	for _, cp := range cps {
+		for i, p := range proofs {
+			if i > 70 && i%9 != 0 {
+				continue
+			}
+			cases = append(cases, wcase{p, cp})
+		}
+	}
+	dir, _ := os.MkdirTemp(c06Scratch(), "c11w-")
+	defer os.RemoveAll(dir)
+	in := filepath.Join(dir, "cases.jsonl")
+	var sb strings.Builder
+	for _, c := range cases {
+		var hs []string
+		for _, h := range c.p {
+			hs = append(hs, base64.StdEncoding.EncodeToString(h))
+		}
+		b, _ := json.Marshal(map[string]any{"old": 0, "cp": base64.StdEncoding.EncodeToString(c.cp), "proof": hs})
+		sb.Write(b)
+		sb.WriteByte('\n')
+	}
+	_ = os.WriteFile(in, []byte(sb.String()), 0o644)
+	cmd := exec.Command(bin)
+	cmd.Env = append(os.Environ(), "VERIF_FEEDBASTION_CASES="+in)
+	out, err := cmd.Output()
+	lines := strings.Split(strings.TrimSuffix(string(out), "\n"), "\n")
+	if err != nil || len(lines) != len(cases) {
+		run.Report("writer-failed", fmt.Sprintf("cmd/feedbastion's writer did not produce one body per case (%d of %d, err=%v)", len(lines), len(cases), err), map[string]any{"kind": "writer"})
+		return 0
+	}
+	for i, c := range cases {
+		body, _ := base64.StdEncoding.DecodeString(lines[i])
+		_, gp, gcp, perr := bastion.VerifParseBody(bytes.NewReader(body))
+		if perr != nil || !eqProof(gp, c.p) || !bytes.Equal(gcp, c.cp) {
+			kind := "refused"
+			if perr == nil {
+				kind = mismatchKind(0, 0, gp, c.p, gcp, c.cp)
+			}
+			run.Report("writer-round-trip "+kind, fmt.Sprintf("the body cmd/feedbastion writes for (%d hashes, %d checkpoint bytes %q) reads back as (%d hashes, %d bytes %q, err=%v)", len(c.p), len(c.cp), short(string(c.cp)), len(gp), len(gcp), short(string(gcp)), perr),
+				map[string]any{"kind": "parse-body", "body_b64": base64.StdEncoding.EncodeToString(body), "origin": "writer"})
+		}
+	}
+	run.Set("writer_bodies", len(cases))
+	return int64(len(cases))
 }
